@@ -85,6 +85,36 @@ theorem floatNonBoolean_gen (x : Rat) : castFloatNonBoolean x = .ok (decide (0 <
   rw [Bool.eq_iff_iff]
   simp
 
+/-- a 2-D/3-D array of fractions (`ndim == 3` after the lift) that passed the range test is refused exactly under the
+    regenerated test on the number of described segments (fix d437594) -/
+theorem castValues_fltLabel_fraction_gen (segs : List Nat) (ps : List (List Rat))
+    (hr : (ps.any fun pl => pl.any fun x => decide (x < 0 ∨ 1 < x)) = false) :
+    castValues segs .fractional (.fltLabel ps) =
+      (match castFloatFractionGuard (segs.length : Int) 3 with
+       | .error e => .error e
+       | .ok _ => .ok (Mask.fltLabel ps, Overlap.no)) := by
+  unfold castFloatFractionGuard
+  simp only [castValues, hr, Bool.false_eq_true, ↓reduceIte]
+  by_cases h : segs.length > 1
+  · have : decide ((segs.length : Int) > 1) = true := by simp; omega
+    simp [h, this]
+  · have : decide ((segs.length : Int) > 1) = false := by simp; omega
+    simp [h, this]
+
+/-- a binary 2-D/3-D float mask (range and 0/1 tests passed; its largest value is 1 iff it holds a 1) is refused exactly
+    under the regenerated label-1 test (fix f08a76b) -/
+theorem castValues_fltLabel_binary_gen (segs : List Nat) (t : SegType) (ht : t ≠ .fractional) (ps : List (List Rat))
+    (hr : (ps.any fun pl => pl.any fun x => decide (x < 0 ∨ 1 < x)) = false)
+    (hb : (ps.any fun pl => pl.any fun x => decide (0 < x ∧ x < 1)) = false) :
+    castValues segs t (.fltLabel ps) =
+      (match castFloatLabelGuard 3 (if (ps.any fun pl => pl.any fun x => decide (x = 1)) then 1 else 0)
+          (decide (1 ∉ segs)) with
+       | .error e => .error e
+       | .ok _ => .ok (Mask.intLabel (ps.map (·.map ratToNat)), Overlap.no)) := by
+  unfold castFloatLabelGuard
+  simp only [castValues, hr, hb, ht, Bool.false_eq_true, ↓reduceIte]
+  cases hany : (ps.any fun pl => pl.any fun x => decide (x = 1)) <;> by_cases h1 : 1 ∈ segs <;> simp [h1]
+
 /-! ## T23: decisions of the frame loop and of `_get_segment_pixel_array` -/
 
 /-- a frame is kept unless it belongs to a single segment and the regenerated skip test holds -/
